@@ -39,6 +39,12 @@ def gen_quotes(rng, date, syms, miss=0.3, weird=False):
         if weird and rng.random() < 0.1:
             bid, ask = rng.choice([(float("nan"), ask), (bid, float("nan")), (0.0, 0.0), (-bid, -ask)])
         qs.append(dict(key=s, bid=f2b(bid), ask=f2b(ask), date=qd, symbol=sym))
+        if s.isdigit() and rng.random() < 0.06:
+            # Jura looks an asset up under its decimal rendering: a quote keyed "07" or "+7" is a different instrument
+            # from asset 7 (it must neither fill nor use up the single attempt of an order on asset 7)
+            k2 = rng.choice(["0" + s, "+" + s, "00" + s, s + ".0"])
+            b2 = rng.choice(GRID)
+            qs.append(dict(key=k2, bid=f2b(b2), ask=f2b(b2 + 0.5), date=qd, symbol=k2))
     return qs
 
 
